@@ -26,9 +26,9 @@ import (
 	"github.com/tink-crypto/tink-go/v2/key"
 	"github.com/tink-crypto/tink-go/v2/keyset"
 	macsubtle "github.com/tink-crypto/tink-go/v2/mac/subtle"
-	commonpb "github.com/tink-crypto/tink-go/v2/proto/common_go_proto"
 	ctrpb "github.com/tink-crypto/tink-go/v2/proto/aes_ctr_go_proto"
 	ctrhmacpb "github.com/tink-crypto/tink-go/v2/proto/aes_ctr_hmac_aead_go_proto"
+	commonpb "github.com/tink-crypto/tink-go/v2/proto/common_go_proto"
 	hmacpb "github.com/tink-crypto/tink-go/v2/proto/hmac_go_proto"
 	tinkpb "github.com/tink-crypto/tink-go/v2/proto/tink_go_proto"
 	"github.com/tink-crypto/tink-go/v2/secretdata"
@@ -307,7 +307,16 @@ type target struct {
 	Route string   // factory proto ctor subtle | envelope2 kmskeyset
 	Keys  []keyCfg // keyset: the keys, first = primary; envelope: the remote (KEK) keyset
 	DEK   string   // envelope: name of the DEK template
+	Env   keyCfg   // envelope, route kmskeyset: Variant/ID of the KmsEnvelopeAeadKey inside its keyset
 	a     tink.AEAD
+}
+
+// envPrefix is the output prefix of the envelope key itself (empty unless it lives in a keyset with a prefix).
+func (t *target) envPrefix() []byte {
+	if t.Mode != "envelope" || t.Route != "kmskeyset" {
+		return nil
+	}
+	return t.Env.prefix()
 }
 
 func (t *target) primary() keyCfg { return t.Keys[0] }
@@ -324,7 +333,7 @@ func (t *target) ev(name string) vt.Ev {
 	for i, k := range t.Keys {
 		ks[i] = k.j()
 	}
-	e := vt.Ev{"ev": name, "mode": t.Mode, "route": t.Route, "keys": ks, "dek": "", "dekTmpl": t.DEK}
+	e := vt.Ev{"ev": name, "mode": t.Mode, "route": t.Route, "keys": ks, "dek": "", "dekTmpl": t.DEK, "ep": vt.Hex(t.envPrefix())}
 	if t.Mode == "envelope" {
 		e["dek"] = dekByName(t.DEK).Cfg.KT
 	}
@@ -398,6 +407,16 @@ func (t *target) build() error {
 		var eh *keyset.Handle
 		if eh, err = keyset.NewHandle(kt); err != nil {
 			return err
+		}
+		if len(t.envPrefix()) > 0 { // give the envelope key a chosen id and output prefix type (through its proto form)
+			ks := insecurecleartextkeyset.KeysetMaterial(eh)
+			ks.PrimaryKeyId = t.Env.ID
+			ks.Key[0].KeyId = t.Env.ID
+			ks.Key[0].OutputPrefixType = map[string]tinkpb.OutputPrefixType{"TINK": tinkpb.OutputPrefixType_TINK,
+				"CRUNCHY": tinkpb.OutputPrefixType_CRUNCHY, "LEGACY": tinkpb.OutputPrefixType_LEGACY}[t.Env.Variant]
+			if eh, err = insecurecleartextkeyset.Read(&keyset.MemReaderWriter{Keyset: ks}); err != nil {
+				return err
+			}
 		}
 		t.a, err = aead.New(eh)
 	default:
